@@ -280,8 +280,8 @@ class CommandManager(object):
                 with self.plock:
                     self.paused.update(self.pause)
                     self.plock.notify_all()
-                self.qlock.wait()
                 self.run_queued_commands()
+                self.qlock.wait()
 
     def sync_commands(self):
         ''' send the pending commands to all the procs in parallel run '''
@@ -449,6 +449,8 @@ class CommandManager(object):
                     self.queue_lock_map[lock_id] = lock
                     self.queue_dict[lock_id] = (meth, args, kwargs)
                     self.queue.append(lock_id)
+                    # wake a paused solver so that it runs the command
+                    self.qlock.notify_all()
                 logger.debug('controller: dispatch(%d): %s %s %s'%(
                             lock_id, meth, args, kwargs))
                 return str(lock_id)
